@@ -162,3 +162,16 @@ Corollary never_beyond_max_in_tx a0 p a t :
   Inv0 a0 -> 0 < maxPages a0 -> a_end (meta a0) <= maxPages a0 -> treach a0 p a t ->
   a_end (data a) <= maxPages a0 /\ a_end (meta a) <= maxPages a0.
 Proof. intros I0 Hmx Hle R. destruct (extent_in_tx a0 p a t I0 Hmx R) as [[A B] _]. lia. Qed.
+
+(* every state of every transaction of every history (without overflow area) on a bounded file: the file ends at
+   or below the limit *)
+Corollary never_beyond_max_history a0 p a t :
+  hreach a0 -> 0 < maxPages a0 -> treach2 a0 p a t ->
+  a_end (data a) <= maxPages a0 /\ a_end (meta a) <= maxPages a0 /\ maxPages a = maxPages a0.
+Proof.
+  intros H Hmx R. pose proof (hreach_inv _ H) as Q.
+  destruct (treach2_inv a0 p a t Q R) as [F Fr].
+  destruct (extent_in_tx a0 p a t (q_inv0 _ Q) Hmx (treach2_treach _ _ _ _ R)) as [_ Hp].
+  pose proof (fr_cap _ _ _ Fr) as Cp. unfold EndInv in Cp. pose proof (proj2 (fi_ends _ _ _ F)).
+  destruct Cp as [C|C]; lia.
+Qed.
